@@ -1121,6 +1121,11 @@ void destruct_object (object_t * ob) {
       char *tmp = ob->name; /* a shared string */
       char *vital_obj_name = NULL;
 
+      /* The reload below runs LPC (create() of the new copy).  A destruct of the same vital object from in there would
+       * record the blanked name as the one to restore (the saved names are static) and leave the object nameless. */
+      if (!ob->name[0])
+        error ("*Destruction of vital object is already in progress.");
+
       /* this could be called before set_master() or set_simul_efun() returns */
       (++sp)->type = T_ERROR_HANDLER;
       sp->u.error_handler = fix_object_names;
